@@ -26,6 +26,8 @@ theorem path_wf : ∀ e : Expr, IsPath e → WFarg e ∧ WFpost e
   | .bin _ _ _, h => absurd h (by simp [IsPath])
   | .un _ _, h => absurd h (by simp [IsPath])
   | .call _ _, h => absurd h (by simp [IsPath])
+  | .flit _ _, h => absurd h (by simp [IsPath])
+  | .callkw _ _ _, h => absurd h (by simp [IsPath])
 
 /-- two references compare equal exactly when they denote the same access path -/
 theorem C06_eq_iff_same_path (p q : Expr) (hp : IsPath p) (hq : IsPath q) : refEq p q ↔ p = q :=
